@@ -722,6 +722,79 @@ pub mod items {
     }
 }
 
+/// A caller-defined `DiffableStr` token type: equality, order and hash look only at `key`; the text
+/// differs between any two occurrences.  (A lawful user type such as a case-insensitive keyword.)
+pub mod keyed {
+    use similar::DiffableStr;
+    use std::borrow::Cow;
+    use std::hash::{Hash, Hasher};
+
+    #[derive(Clone, Debug)]
+    pub struct Keyed {
+        pub key: u32,
+        pub text: String,
+    }
+    impl PartialEq for Keyed {
+        fn eq(&self, o: &Keyed) -> bool {
+            self.key == o.key
+        }
+    }
+    impl Eq for Keyed {}
+    impl Hash for Keyed {
+        fn hash<H: Hasher>(&self, h: &mut H) {
+            self.key.hash(h)
+        }
+    }
+    impl PartialOrd for Keyed {
+        fn partial_cmp(&self, o: &Keyed) -> Option<std::cmp::Ordering> {
+            Some(self.cmp(o))
+        }
+    }
+    impl Ord for Keyed {
+        fn cmp(&self, o: &Keyed) -> std::cmp::Ordering {
+            self.key.cmp(&o.key)
+        }
+    }
+    impl DiffableStr for Keyed {
+        fn tokenize_lines(&self) -> Vec<&Self> {
+            vec![self]
+        }
+        fn tokenize_lines_and_newlines(&self) -> Vec<&Self> {
+            vec![self]
+        }
+        fn tokenize_words(&self) -> Vec<&Self> {
+            vec![self]
+        }
+        fn tokenize_chars(&self) -> Vec<&Self> {
+            vec![self]
+        }
+        fn tokenize_unicode_words(&self) -> Vec<&Self> {
+            vec![self]
+        }
+        fn tokenize_graphemes(&self) -> Vec<&Self> {
+            vec![self]
+        }
+        fn as_str(&self) -> Option<&str> {
+            Some(&self.text)
+        }
+        fn to_string_lossy(&self) -> Cow<'_, str> {
+            Cow::Borrowed(&self.text)
+        }
+        fn ends_with_newline(&self) -> bool {
+            self.text.ends_with(&['\r', '\n'][..])
+        }
+        fn len(&self) -> usize {
+            self.text.len()
+        }
+        fn slice(&self, _rng: std::ops::Range<usize>) -> &Self {
+            self
+        }
+        fn as_bytes(&self) -> &[u8] {
+            self.text.as_bytes()
+        }
+    }
+}
+
 /// deterministic pseudo-random sequence for the fixed "large" cases (a constant of the harness,
 /// not a source of randomness of a run)
 pub fn lcg_seq(seed: u64, n: usize, k: u32) -> Vec<u32> {
